@@ -19,7 +19,7 @@ SPEC = tlc.SPEC
 CORE = [('MC_core.tla', 'MC_core.cfg')]
 PLAN = {
     'C01': {'quick': CORE, 'thorough': [('MC_core.tla', 'MC_core_big.cfg'), ('MC_core.tla', 'MC_err.cfg')]},
-    'C02': {'quick': CORE + [('MC_core.tla', 'MC_g1.cfg')], 'thorough': [('MC_core.tla', 'MC_core_big.cfg'), ('MC_core.tla', 'MC_g1.cfg')]},
+    'C02': {'quick': CORE, 'thorough': [('MC_core.tla', 'MC_core_big.cfg'), ('MC_core.tla', 'MC_g1.cfg')]},
     'C03': {'quick': CORE + [('MC_hist.tla', 'MC_hist.cfg')], 'thorough': [('MC_core.tla', 'MC_core_big.cfg'), ('MC_hist.tla', 'MC_hist.cfg'), ('MC_core.tla', 'MC_rec.cfg')]},
     'C04': {'quick': CORE, 'thorough': [('MC_core.tla', 'MC_core_big.cfg')]},
     'C05': {'quick': CORE, 'thorough': [('MC_core.tla', 'MC_core_big.cfg'), ('MC_par.tla', 'MC_par.cfg')]},
